@@ -2,7 +2,9 @@
 Data file operations and readers/writers for the Python Iceberg implementation
 """
 
+import math
 import os
+import struct
 import tempfile
 from typing import TYPE_CHECKING, Any, Dict, Iterator, List, Optional, Tuple, Union
 
@@ -519,6 +521,16 @@ class DataFileManager:
             str(f["name"]) for f in iceberg_schema.fields if f.get("required", False)
         }
 
+        # pyarrow converts python floats into integer-backed columns (int, long
+        # and the epoch-unit temporal types) by TRUNCATION, and into float32 by
+        # overflowing to +-inf - both silently. A value the declared type cannot
+        # represent must be rejected, not altered.
+        integral = {
+            str(f["name"]) for f in iceberg_schema.fields
+            if f.get("type") in ("int", "long", "date", "time", "timestamp")
+        }
+        float32 = {str(f["name"]) for f in iceberg_schema.fields if f.get("type") == "float"}
+
         for i, record in enumerate(records):
             unknown = {str(k) for k in record.keys()} - allowed
             if unknown:
@@ -531,6 +543,25 @@ class DataFileManager:
                     raise ValueError(
                         f"Record {i} is missing required field '{name}' (or it is None)"
                     )
+            for name in integral:
+                value = record.get(name)
+                if isinstance(value, float) and not value.is_integer():
+                    raise ValueError(
+                        f"Record {i}: value {value!r} for field '{name}' is not integral; "
+                        f"refusing to silently truncate it"
+                    )
+            for name in float32:
+                value = record.get(name)
+                if isinstance(value, float) and math.isfinite(value):
+                    try:
+                        fits = math.isfinite(struct.unpack("f", struct.pack("f", value))[0])
+                    except OverflowError:
+                        fits = False
+                    if not fits:
+                        raise ValueError(
+                            f"Record {i}: value {value!r} for field '{name}' does not fit a "
+                            f"32-bit float; refusing to silently store infinity"
+                        )
 
     def write_data_file(
         self,
